@@ -26,6 +26,31 @@ CLAIMED = {
         note=COMMON_NOTE + "Assumes payload length < 2^64 and that bytes::BytesMut behaves as a byte sequence. The tie "
              "between model and code is differential (generator-bounded), not a proof about the Rust text.",
         design="§8 C03"),
+    "C04": dict(
+        engine="M2 Engine",
+        technique="Lean 4 theorem: the engine's output is invariant under every segmentation of the byte stream (termination measure + "
+                  "append-monotone deterministic micro-step + induction over the chunk list); tie: translator + lock-step correspondence "
+                  "(cut vs uncut on two real engines) + raw-TCP peer against real sockets with chosen write boundaries",
+        text="Proof over the engine model: for every peer byte stream, every segmentation and every timing of the reads, final state and "
+             "the whole sequence of net/app actions (HandshakeComplete, DeliverMessage, PeerError) equal those of a single read; the "
+             "engine is quiescent between reads (the fuel of the model never runs out). 5 theorems. The session driver's part (frames "
+             "that share a read with the last handshake bytes are forwarded, fixed in 5376220) is checked at stack level by trace "
+             "comparison across write boundaries, not proved; CURVE/NOISE transcripts are covered by the abstract-mechanism theorems only.",
+        note=COMMON_NOTE + "Kernel TCP coalescing decides which cuts occur; stack scenarios control write boundaries only.",
+        design="§8 C04"),
+    "C07": dict(
+        engine="M1 Wire + M2 Engine",
+        technique="Lean 4 theorems: totality/no-panic invariant, MAXMSGSIZE exactness for every decoder, accumulator and frame-count "
+                  "bounds over all reachable engine states; tie: translator + correspondence on mutated transcripts under catch_unwind + "
+                  "slow-drip / hostile raw peers against real sockets",
+        text="Proof over the wire+engine model: no decoder outcome is `panic`; a frame of exactly MAXMSGSIZE is accepted and one of "
+             "MAXMSGSIZE+1 rejected from its header alone by every decoder; between reads an open connection holds < max(64, 9+MAXMSGSIZE) "
+             "undecoded bytes; a message never exceeds 255 frames (256th = protocol error, fixed in c52be1a); every PeerError closes and a "
+             "closed engine is silent; READY metadata parsing is total and sound. 10 theorems. Partial: absence of panics in the Rust code is "
+             "observed (catch_unwind over ~2k/50k mutated streams), not proved; the handshake deadline (fixed in 5c309d1) and slot release "
+             "are measured at stack level; CURVE/NOISE parsers are not modelled.",
+        note=COMMON_NOTE + "Memory safety and panic freedom of Rust code paths not reached by the generators are out of scope.",
+        design="§8 C07"),
     "C06": dict(
         engine="M2 Engine",
         technique="Lean 4 inductive invariant over every reachable engine state for every peer byte stream and segmentation "
